@@ -33,9 +33,8 @@ KINDS = ("bool", "int", "float", "string", "enum", "enumref", "list", "struct", 
 
 class CtorGen:
     def __init__(self, rng, fmt, clean=False):
-        """clean: avoid the constructs that are KNOWN to make the generated Go package uncompilable (list defaults
-        of non-strings in every format, numeric defaults in JSON Schema), so that the constructors' VALUES get
-        exercised; the default-less fields and constants are still there."""
+        """clean: avoid the construct that is KNOWN to make the generated Go package uncompilable (list defaults of
+        non-strings, in every format), so that the constructors' VALUES get exercised."""
         self.rng = rng
         self.fmt = fmt
         self.clean = clean
@@ -248,8 +247,6 @@ class CtorGen:
                 f["dkind"] = "struct"
             return f
         # scalar-ish kinds get a default most of the time
-        if self.clean and self.fmt == "jsonschema" and kind in ("int", "float"):
-            return f
         if r.random() < 0.85:
             f["default"] = self.v_of(f["t"])
             f["dkind"] = {"bool": "bool", "int": "int", "float": "float", "string": "string", "enum": "enum", "list": "list"}[kind]
@@ -258,8 +255,7 @@ class CtorGen:
     def overrides(self, st):
         r = self.rng
         cands = [g for g in st["fields"] if g["t"]["k"] in ("bool", "int", "float", "string", "enum", "array", "union")]
-        if self.clean and self.fmt == "jsonschema":
-            cands = [g for g in cands if g["t"]["k"] in ("bool", "string", "array")]
+
         ov = {}
         chosen = r.sample(cands, min(len(cands), r.randint(1, 2)))
         if self.fmt == "openapi":
